@@ -953,6 +953,17 @@ struct Executor {
         // O-LEAK
         std::vector<LedgerEntry> live = ledger_live_of(sc.s->id);
         std::map<std::string, std::pair<int, size_t>> by_site;
+        if (!live.empty()) {
+            // what the library still reaches from its static storage is a cache, not a leak (LeakSanitizer semantics)
+            std::vector<void *> kept = ledger_reachable_from_statics();
+            std::sort(kept.begin(), kept.end());
+            std::vector<LedgerEntry> really;
+            for (auto &e : live) {
+                if (std::binary_search(kept.begin(), kept.end(), e.ptr)) { count("allocations_retained_by_static_storage"); ledger_handover(e.ptr); }
+                else really.push_back(e);
+            }
+            live.swap(really);
+        }
         for (auto &e : live) { by_site[e.site].first++; by_site[e.site].second += e.size; }
         for (auto &kv : by_site)
             viol({pl}, "leak", std::string("site=") + kv.first + ":codec=" + cn(sc), std::to_string(kv.second.first) + " block(s), " + std::to_string(kv.second.second) + " bytes, released at stage " + stage, &sc);
